@@ -9,9 +9,9 @@
      src/oscore/oscore_context.c  oscore_add_recipient (memset 0, initial_state = 1),
                                   oscore_derive_ctx (replay_window 0 -> default)
 
-   The code as found violated the property in five places.  Each repair is a flag of
+   The code as found violated the property in seven places.  Each repair is a flag of
    [rp_variant]: [rp_orig] (all flags off) is the code as found at /repo 74963ff, [rp_fixed]
-   (all on) is the code after the five "fix:" commits.  The tie (harness/h_replay.c) compares
+   (all on) is the code after the seven "fix:" commits.  The tie (harness/h_replay.c) compares
    the C with [rp_fixed]; the [_refuted] theorems are about [rp_orig] and the variants with a
    single repair missing.
 
@@ -35,10 +35,13 @@ Record rp_variant := {
   rp_v_shguard : bool;     (* a jump of >= 64 clears the window instead of shifting by it *)
   rp_v_nooverwrite : bool; (* the call site does not assign last_seq before decryption *)
   rp_v_rbflag : bool;      (* rollback restores window and last_seq together *)
-  rp_v_arm : bool          (* without B.1.2 the first authenticated request arms the window *)
+  rp_v_arm : bool;         (* without B.1.2 the first authenticated request arms the window *)
+  rp_v_resp_rb : bool;     (* a response that fails decryption gets the window rolled back, too *)
+  rp_v_resp_nowrite : bool (* the response branch does not write last_seq before decryption (and
+                              tests the received number, not the stored one, against SEQ_MAX) *)
 }.
-Definition rp_orig : rp_variant := Build_rp_variant false false false false false.
-Definition rp_fixed : rp_variant := Build_rp_variant true true true true true.
+Definition rp_orig : rp_variant := Build_rp_variant false false false false false false false.
+Definition rp_fixed : rp_variant := Build_rp_variant true true true true true true true.
 
 (* oscore_recipient_ctx_t, the anti-replay part.  [rp_undef] is not a C field: it records
    that a shift by >= 64 bits (undefined behaviour in C) has been evaluated. *)
@@ -112,7 +115,11 @@ Definition rp_rollback (v : rp_variant) (s : rp_state) : rp_state :=
    matches kid / kid context (4.01 "Security context not found"). *)
 Inductive rp_auth := RpGenuine | RpForged | RpUnroutable.
 Inductive rp_echo := RpEchoNone | RpEchoOk | RpEchoBad.
-Record rp_msg := { rp_m_seq : Z; rp_m_auth : rp_auth; rp_m_echo : rp_echo }.
+(* a request, or a response that carries a Partial IV of its own (Observe notification, B.1.2
+   challenge) for an outstanding request of this endpoint: it is checked against the same
+   recipient context ([RpUnroutable] for a response: no association for its token) *)
+Inductive rp_kind := RpRequest | RpResponse.
+Record rp_msg := { rp_m_seq : Z; rp_m_auth : rp_auth; rp_m_echo : rp_echo; rp_m_kind : rp_kind }.
 
 Inductive rp_verdict :=
 | RpAccept        (* decrypted PDU returned: the request reaches the handler *)
@@ -120,7 +127,10 @@ Inductive rp_verdict :=
 | RpRejDecrypt    (* 4.00 "Decryption failed" *)
 | RpRejChallenge  (* B.1.2: 4.01 with a fresh Echo value *)
 | RpRejEchoBad    (* B.1.2: Echo present but wrong: dropped *)
-| RpRejUnroutable. (* 4.02 / 4.01 before any recipient context is touched *)
+| RpRejUnroutable  (* 4.02 / 4.01 before any recipient context is touched *)
+| RpAcceptUnchecked. (* a response delivered while the context is in its initial state: nothing
+                        was checked and nothing is recorded (a client that never serves requests
+                        of the peer stays in that state) *)
 
 (* the validation done after decryption while the context is in its initial state *)
 Definition rp_arm (v : rp_variant) (W : Z) (s : rp_state) (seq : Z) : rp_verdict * rp_state :=
@@ -128,7 +138,7 @@ Definition rp_arm (v : rp_variant) (W : Z) (s : rp_state) (seq : Z) : rp_verdict
   if ok then (RpAccept, s1) else (RpRejReplay, s1).
 
 (* one request through coap_oscore_decrypt_pdu, in the order of the C *)
-Definition rp_recv (v : rp_variant) (W : Z) (b12 : bool) (s : rp_state) (m : rp_msg)
+Definition rp_recv_req (v : rp_variant) (W : Z) (b12 : bool) (s : rp_state) (m : rp_msg)
   : rp_verdict * rp_state :=
   let seq := rp_m_seq m in
   match rp_m_auth m with
@@ -157,6 +167,45 @@ Definition rp_recv (v : rp_variant) (W : Z) (b12 : bool) (s : rp_state) (m : rp_
         else (RpAccept, s2)
       else (RpAccept, s2)
     end
+  end.
+
+(* one response with a Partial IV of its own through coap_oscore_decrypt_pdu (8.4) *)
+Definition rp_recv_resp (v : rp_variant) (W : Z) (s : rp_state) (m : rp_msg)
+  : rp_verdict * rp_state :=
+  let seq := rp_m_seq m in
+  match rp_m_auth m with
+  | RpUnroutable => (RpRejUnroutable, s)      (* no association for the token *)
+  | _ =>
+  (* if (rcp_ctx->initial_state == 0 && !oscore_validate_sender_seq(...)) goto error *)
+  let validated := negb (rp_initial s) in
+  let '(ok, s1) := if rp_initial s then (true, s) else rp_validate v W s seq in
+  if negb ok then (RpRejReplay, s1)
+  else
+    let '(toobig, s2) :=
+      if rp_v_resp_nowrite v then (seq >=? rp_seq_max, s1)
+      else
+        (* as found: if (rcp_ctx->last_seq >= OSCORE_SEQ_MAX) goto error;
+                     if (last_seq > rcp_ctx->last_seq) rcp_ctx->last_seq = last_seq; *)
+        (rp_last s1 >=? rp_seq_max,
+         if seq >? rp_last s1
+         then Build_rp_state seq (rp_win s1) (rp_rb_last s1) (rp_rb_win s1) (rp_initial s1)
+                             (rp_undef s1)
+         else s1) in
+    if toobig then (RpRejReplay, s1)
+    else
+      match rp_m_auth m with
+      | RpUnroutable => (RpRejUnroutable, s)
+      | RpForged =>                               (* 8.4 step 5 fails *)
+        (RpRejDecrypt, if rp_v_resp_rb v && validated then rp_rollback v s2 else s2)
+      | RpGenuine => if rp_initial s2 then (RpAcceptUnchecked, s2) else (RpAccept, s2)
+      end
+  end.
+
+Definition rp_recv (v : rp_variant) (W : Z) (b12 : bool) (s : rp_state) (m : rp_msg)
+  : rp_verdict * rp_state :=
+  match rp_m_kind m with
+  | RpRequest => rp_recv_req v W b12 s m
+  | RpResponse => rp_recv_resp v W s m
   end.
 
 (* a history: verdict of every step and the final state *)
@@ -225,7 +274,7 @@ Definition rp_abs_fresh (W : Z) (a : rp_abs) (seq : Z) : bool :=
 Definition rp_abs_accept (a : rp_abs) (seq : Z) : rp_abs :=
   Build_rp_abs true (if rp_a_armed a then Z.max (rp_a_hi a) seq else seq) (seq :: rp_a_seen a).
 
-Definition rp_abs_recv (W : Z) (b12 : bool) (a : rp_abs) (m : rp_msg) : rp_verdict * rp_abs :=
+Definition rp_abs_recv_req (W : Z) (b12 : bool) (a : rp_abs) (m : rp_msg) : rp_verdict * rp_abs :=
   let seq := rp_m_seq m in
   match rp_m_auth m with
   | RpUnroutable => (RpRejUnroutable, a)
@@ -249,6 +298,23 @@ Definition rp_abs_recv (W : Z) (b12 : bool) (a : rp_abs) (m : rp_msg) : rp_verdi
         end
       else go
     end
+  end.
+
+Definition rp_abs_recv_resp (W : Z) (a : rp_abs) (m : rp_msg) : rp_verdict * rp_abs :=
+  let seq := rp_m_seq m in
+  match rp_m_auth m with
+  | RpUnroutable => (RpRejUnroutable, a)
+  | RpForged => if negb (rp_abs_fresh W a seq) then (RpRejReplay, a) else (RpRejDecrypt, a)
+  | RpGenuine =>
+    if negb (rp_abs_fresh W a seq) then (RpRejReplay, a)
+    else if rp_a_armed a then (RpAccept, rp_abs_accept a seq)
+    else (RpAcceptUnchecked, a)
+  end.
+
+Definition rp_abs_recv (W : Z) (b12 : bool) (a : rp_abs) (m : rp_msg) : rp_verdict * rp_abs :=
+  match rp_m_kind m with
+  | RpRequest => rp_abs_recv_req W b12 a m
+  | RpResponse => rp_abs_recv_resp W a m
   end.
 
 Fixpoint rp_abs_run (W : Z) (b12 : bool) (a : rp_abs) (h : list rp_msg)
